@@ -84,3 +84,15 @@ Example c20_window_nonvacuous :
   let k := run_hist [(0, 5)] k0 in
   cnt (r10 k) <> 0 /\ fires300 (300000 * ms_ns) k = true.
 Proof. vm_compute. split; [discriminate|reflexivity]. Qed.
+
+Print Assumptions c20_window_lengths.
+Print Assumptions c20_window.
+Print Assumptions c20_rate_is_increase.
+Print Assumptions c20_wrap.
+Print Assumptions c20_zero_ignored.
+Print Assumptions c20_first.
+Print Assumptions c20_nonneg_finite.
+Print Assumptions c20_average.
+Print Assumptions c20_average_exact.
+Print Assumptions c20_average_first.
+Print Assumptions c20_refused.
